@@ -12,6 +12,7 @@ import (
 	"path/filepath"
 	"strings"
 	"sync"
+	"sync/atomic"
 	"time"
 )
 
@@ -66,6 +67,12 @@ func RunCases(prelude string, assumes []*Term, goals []CaseGoal, insts []CaseIns
 		for _, g := range goals {
 			x := Subst(g.Cond, in.Sub, memo)
 			if implMentionsRest(x, map[*Term]bool{}) {
+				if !isOpen && len(open) == 0 && os.Getenv("GOVC_DEBUG_OPEN") != "" {
+					pp := NewPrinter()
+					pp.Prepare(x)
+					body := pp.Emit(x)
+					fmt.Fprintf(os.Stderr, "open instance %s goal %s:\n%s\n%s\n%s\n", in.Label, g.Name, pp.Decls(nil), pp.Defs(), body)
+				}
 				isOpen = true
 			}
 		}
@@ -299,6 +306,7 @@ func runCasesCore(prelude string, assumes []*Term, goals []CaseGoal, insts []Cas
 		termMu.Unlock()
 	}
 	skipped := res.Skipped
+	var undecided int64
 	nb := (len(insts) + caseBatch - 1) / caseBatch
 	outs := make([]batchOut, nb)
 	var wg sync.WaitGroup
@@ -383,9 +391,25 @@ func runCasesCore(prelude string, assumes []*Term, goals []CaseGoal, insts []Cas
 			bname := fmt.Sprintf("%s.batch%04d", name, b)
 			var sts []string
 			var out string
+			// once many instances are undecided the goal has failed anyway: do not spend minutes per
+			// remaining batch on hard queries (only happens on changed code)
+			if atomic.LoadInt64(&undecided) > 60 {
+				outs[b].calls = len(exps)
+				for _, e := range exps {
+					if e.goal >= 0 {
+						outs[b].fails = append(outs[b].fails, caseFail{Goal: e.goal, Label: insts[e.inst].Label, Status: "not attempted (goal already undecided on more than 60 instances)"})
+						break
+					}
+				}
+				return
+			}
+			bt := timeoutS
+			if bt > 150 {
+				bt = 150
+			}
 			for _, sv := range []string{"z3-5", "z3-4"} {
-				sts, out, _ = RunBatch(script, dir, bname, timeoutS, sv)
-				if len(sts) == len(exps) && !strings.Contains(out, "(error") {
+				sts, out, _ = RunBatch(script, dir, bname, bt, sv)
+				if len(sts) > 0 && !strings.Contains(out, "(error") {
 					break
 				}
 			}
@@ -397,6 +421,13 @@ func runCasesCore(prelude string, assumes []*Term, goals []CaseGoal, insts []Cas
 			for len(sts) < len(exps) {
 				sts = append(sts, "unknown") // the solver ran out of time on this batch: undecided instances
 			}
+			nfail0 := len(outs[b].fails)
+			defer func() {
+				// batches without a failing instance are not kept (hundreds of MB per check otherwise)
+				if len(outs[b].fails) == nfail0 && outs[b].tool == "" && len(outs[b].vac) == 0 && os.Getenv("GOVC_KEEP_SMT") == "" {
+					os.Remove(filepath.Join(dir, bname+".smt2"))
+				}
+			}()
 			for k, e := range exps {
 				if e.goal < 0 {
 					if sts[k] == "unsat" {
@@ -406,6 +437,9 @@ func runCasesCore(prelude string, assumes []*Term, goals []CaseGoal, insts []Cas
 				}
 				if sts[k] != "unsat" {
 					outs[b].fails = append(outs[b].fails, caseFail{Goal: e.goal, Label: insts[e.inst].Label, Status: sts[k]})
+					if sts[k] != "sat" {
+						atomic.AddInt64(&undecided, 1)
+					}
 				}
 			}
 		}(b, script, exps)
